@@ -12,6 +12,9 @@ from ..values import ValueGen
 from . import common, rustwl
 
 _DESCS = None
+HAZARD_SIDE = {"roundtrip-parse-fails": "parse", "roundtrip-differs": "parse", "non-DecodeError-exception": "parse",
+               "rejects-valid": "parse", "accepts-invalid": "parse", "wrong-field-values": "parse",
+               "size-property-differs-from-serialized-length": "size"}
 
 
 def tier_params(tier):
@@ -46,6 +49,13 @@ def worker(task):
            "constructs": {}}
 
     def V(pid, sig, case):
+        if pid == "C13" and case.get("type") and sig.split("|")[0].split(":")[0] in HAZARD_SIDE and \
+                rustwl.struct_tree_field(m, case["type"]):
+            # recorded root cause: a derived struct used as field / element type (the generated code calls
+            # Child.parse(span), which needs the parent's field dict). Everything downstream of that call -
+            # TypeError, failed round trip, wrong size property - is keyed on it, the class stays in the case.
+            case = dict(case, failure=sig)
+            sig = "%s-diverges|derived-struct-as-field-type" % HAZARD_SIDE[sig.split("|")[0].split(":")[0]]
         if pid in props:
             case.update({"desc": d["name"], "profile": d["profile"], "gen_seed": d["gen_seed"],
                          "endianness": A.endianness(d["file"]), "pdl": d["text"]})
@@ -164,9 +174,33 @@ def worker(task):
     return _fin(res)
 
 
+def _relax_nested(m, tid, v, depth=0):
+    """the same holds for nested struct fields: a field typed as a struct that has children comes back as
+    the most specialized child object, whose `payload` is its own"""
+    if not isinstance(v, dict) or tid not in m.dm or depth > 6:
+        return v
+    out = dict(v)
+    for x in m.chain(m.dm[tid]):
+        for fl in x.get("fields", ()):
+            t = fl.get("type_id") if fl["kind"] in ("typedef_field", "array_field") else None
+            if not t or m.kind(t) != "struct_declaration" or fl.get("id") not in out:
+                continue
+            strip = bool(A.children_of(m.file, t))
+
+            def one(e):
+                e = _relax_nested(m, t, e, depth + 1)
+                if strip and isinstance(e, dict):
+                    e = {k: w for k, w in e.items() if k != "payload"}
+                return e
+            cur = out[fl["id"]]
+            out[fl["id"]] = [one(e) for e in cur] if isinstance(cur, list) else one(cur)
+    return out
+
+
 def _cmp_value(m, tid, cls, v):
     """the generated parsers return the most specialized class they can; a descendant's object
     holds its own payload, so the ancestor's `payload` member is not comparable then"""
+    v = _relax_nested(m, tid, v)
     if cls and cls != tid and isinstance(v, dict) and "payload" in v and cls in m.dm and \
             tid in [x["id"] for x in m.chain(m.dm[cls])]:
         return {k: x for k, x in v.items() if k != "payload"}
